@@ -34,6 +34,13 @@ PTFS = {
     "halfturn": np.diag([-1.0, 1.0, 1.0]),                 # negative determinant; positive representatives become negative in chart 0
     "negconj": -(_NONAFF @ np.diag([1.8, 1.0, 1.0 / 1.8]) @ np.linalg.inv(_NONAFF)),     # the same map as conj, negative scalar multiple
 }
+# transform histories (sections history-*): a drawing's transform reached through the constructor, set_transform,
+# add_transform and precompose_transform; the hyperbolic pair (rot, lox) and the projective pair (shear, diag) do
+# not commute.  PSHEAR = I + N, N of rank one with N^2 = 0 (a transvection: x0 += 0.7 x1, x2 += 0.4 x1).
+PSHEAR = np.array([[1.0, 0.7, 0.0], [0.0, 1.0, 0.0], [0.0, 0.4, 1.0]])
+PTF_ALL = dict(PTFS, shear=PSHEAR)
+HIST_OPS = ["ctor", "set", "add", "pre"]
+HIST_PAIRS = {"hyperbolic": ["rot", "lox"], "projective": ["shear", "diag"]}
 # ProjectiveDrawing.draw_polygon(assume_affine=False) decides with Polygon.in_standard_chart, i.e. in chart 0,
 # whatever the drawing's chart_index is, which polygons it may draw as they are.  While True, a polygon drawn
 # with assume_affine=False is demanded only if it lies inside chart 0 AND inside the drawing's chart.
@@ -78,22 +85,104 @@ def lib_model(model):
     return {"poincare": Model.POINCARE, "halfspace": Model.HALFSPACE, "klein": Model.KLEIN}[model]
 
 
-def new_drawing(model, tf):
-    import matplotlib.pyplot as plt
-    from geometry_tools import drawtools, hyperbolic
-    plt.close("all")
-    M = TFS[tf]
-    t = None if M is None else hyperbolic.Isometry(np.array(M), column_vectors=True)
-    return drawtools.HyperbolicDrawing(model=lib_model(model), transform=t)
+def lib_transform(space, name):
+    """A fresh library transformation for the entry `name` of TFS / PTF_ALL (None for the identity entry)."""
+    from geometry_tools import hyperbolic, projective
+    M = (TFS if space == "hyperbolic" else PTF_ALL)[name]
+    if M is None:
+        return None
+    cls = hyperbolic.Isometry if space == "hyperbolic" else projective.Transformation
+    return cls(np.array(M, dtype=float), column_vectors=True)
 
 
-def new_proj_drawing(chart, tf):
+def apply_history(space, make, hist):
+    """make(transform) builds the drawing; hist = [[op, transform name], ...], op in HIST_OPS ('ctor' only first):
+    the constructor's transform= argument, set_transform, add_transform, precompose_transform, in this order."""
+    hist = [list(h) for h in hist]
+    if hist and hist[0][0] == "ctor":
+        d = make(lib_transform(space, hist[0][1]))
+        hist = hist[1:]
+    else:
+        d = make(None)
+    for op, name in hist:
+        {"set": d.set_transform, "add": d.add_transform, "pre": d.precompose_transform}[op](lib_transform(space, name))
+    return d
+
+
+def hist_matrix(space, hist):
+    """Oracle: the column-vector matrix of the drawing's transform after the history.  ctor / set_transform(T): M = T;
+    add_transform(T): M = T M (T is applied to what the drawing already did: objects at T(M x));
+    precompose_transform(T): M = M T (T is applied first: objects at M(T x))."""
+    table = TFS if space == "hyperbolic" else PTF_ALL
+    M = np.eye(3)
+    for op, name in hist:
+        T = np.asarray(table[name], dtype=float)
+        if op in ("ctor", "set"):
+            M = T
+        elif op == "add":
+            M = T @ M
+        elif op == "pre":
+            M = M @ T
+        else:
+            raise ValueError(op)
+    return M
+
+
+def hist_label(hist):
+    return ">".join("%s:%s" % (op, name) for op, name in hist) or "none"
+
+
+def reported_transform_violations(space, d, M):
+    """drawing.transform, as the library reports it, is the documented composition (compared as projective maps:
+    both matrices scaled to Frobenius norm 1, sign of the larger-modulus entry aligned)."""
+    try:
+        R = np.asarray(d.transform.matrix, dtype=float).T           # the library stores row-vector matrices
+        R = R.reshape(3, 3)
+    except Exception as e:                                           # pragma: no cover - harness reading an attribute
+        return [V("history/transform-attribute/unreadable", "drawing.transform.matrix: %r" % (e,))]
+    A, B = R / np.linalg.norm(R), M / np.linalg.norm(M)
+    i = int(np.argmax(np.abs(B)))
+    if A.ravel()[i] * B.ravel()[i] < 0:
+        A = -A
+    if float(np.max(np.abs(A - B))) > 1e-9:
+        return [V("history/transform-attribute/" + space, "drawing.transform is %s, the history composes to %s" % (fmt(R), fmt(M)))]
+    return []
+
+
+def new_drawing(model, tf, hist=None):
     import matplotlib.pyplot as plt
-    from geometry_tools import drawtools, projective
+    from geometry_tools import drawtools
     plt.close("all")
-    M = PTFS[tf]
-    t = None if M is None else projective.Transformation(np.array(M), column_vectors=True)
-    return drawtools.ProjectiveDrawing(chart_index=chart, transform=t)
+
+    def make(t):
+        return drawtools.HyperbolicDrawing(model=lib_model(model), transform=t)
+    if hist is not None:
+        return apply_history("hyperbolic", make, hist)
+    return make(lib_transform("hyperbolic", tf))
+
+
+def new_proj_drawing(chart, tf, hist=None):
+    import matplotlib.pyplot as plt
+    from geometry_tools import drawtools
+    plt.close("all")
+
+    def make(t):
+        return drawtools.ProjectiveDrawing(chart_index=chart, transform=t)
+    if hist is not None:
+        return apply_history("projective", make, hist)
+    return make(lib_transform("projective", tf))
+
+
+def drawing_of(space, where, case):
+    """(drawing, tf, label, violations): tf is what `transformed` / `ptransformed` take - the name of the case's
+    constructor transform or, for a case with a transform history, the oracle matrix of the history."""
+    hist = case.get("hist")
+    new = new_drawing if space == "hyperbolic" else new_proj_drawing
+    if hist is None:
+        return new(where, case["tf"]), case["tf"], case["tf"], []
+    d = new(where, None, hist)
+    M = hist_matrix(space, hist)
+    return d, M.tolist(), hist_label(hist), reported_transform_violations(space, d, M)
 
 
 def close_all():
@@ -172,7 +261,7 @@ def data_path(artist, ax, path=None):
 
 
 def transformed(tf, K):
-    M = TFS[tf]
+    M = TFS[tf] if isinstance(tf, str) else np.asarray(tf, dtype=float)
     K = np.asarray(K, dtype=float)
     return K if M is None else dg.apply_klein(M, K)
 
@@ -370,10 +459,11 @@ def in_view(model, Kt):
 def case_polygons(case):
     """One figure; polygons head+tail for every tail, each drawn by its own draw_polygon call."""
     from geometry_tools import hyperbolic
-    model, tf, head = case["model"], case["tf"], case["head"]
-    v, summ, t, nt = [], set(), 0, False
+    model, head = case["model"], case["head"]
+    v, summ, t, nt, lab = [], set(), 0, False, case.get("tf")
     try:
-        d = new_drawing(model, tf)
+        d, tf, lab, v0 = drawing_of("hyperbolic", model, case)
+        v += v0
         thr = threshold()
         for tail in case["tails"]:
             K = np.array(head + tail, dtype=float)
@@ -392,7 +482,7 @@ def case_polygons(case):
             nt = nt or ("A" in s) or model == "klein"
     finally:
         close_all()
-    return {"v": v[:6], "t": t, "o": "%s/%s/" % (model, tf) + ";".join(sorted(summ)), "nt": nt}
+    return {"v": v[:6], "t": t, "o": "%s/%s/" % (model, lab) + ";".join(sorted(summ)), "nt": nt}
 
 
 def case_polygon_composite(case):
@@ -691,10 +781,11 @@ def geodesic_in_domain(model, kind, ka, kb):
 
 def case_geodesics(case):
     from geometry_tools import hyperbolic
-    model, tf, kind, a = case["model"], case["tf"], case["kind"], case["a"]
-    v, summ, t = [], set(), 0
+    model, kind, a = case["model"], case["kind"], case["a"]
+    v, summ, t, lab = [], set(), 0, case.get("tf")
     try:
-        d = new_drawing(model, tf)
+        d, tf, lab, v0 = drawing_of("hyperbolic", model, case)
+        v += v0
         thr = threshold()
         for b in case["bs"]:
             if not geodesic_in_domain(model, kind, transformed(tf, a), transformed(tf, b)):
@@ -714,7 +805,7 @@ def case_geodesics(case):
             summ.add(s)
     finally:
         close_all()
-    return {"v": v[:6], "t": t, "o": "%s/%s/%s/" % (model, tf, kind) + "".join(sorted(summ)), "nt": bool(summ - {"skipped"})}
+    return {"v": v[:6], "t": t, "o": "%s/%s/%s/" % (model, lab, kind) + "".join(sorted(summ)), "nt": bool(summ - {"skipped"})}
 
 
 def case_geodesic_composites(case):
@@ -777,10 +868,11 @@ def line_data(new, d, site):
 
 def case_points(case):
     from geometry_tools import hyperbolic
-    model, tf = case["model"], case["tf"]
-    v, t = [], 0
+    model = case["model"]
+    v, t, lab = [], 0, case.get("tf")
     try:
-        d = new_drawing(model, tf)
+        d, tf, lab, v0 = drawing_of("hyperbolic", model, case)
+        v += v0
         for item in case["items"]:
             K = np.array(item["k"], dtype=float).reshape(tuple(item["shape"]) + (2,))
             cls = hyperbolic.IdealPoint if item.get("ideal") else hyperbolic.Point
@@ -798,7 +890,7 @@ def case_points(case):
             v += vv
     finally:
         close_all()
-    return {"v": v[:6], "t": t, "o": "%s/%s/%d" % (model, tf, t), "nt": True}
+    return {"v": v[:6], "t": t, "o": "%s/%s/%d" % (model, lab, t), "nt": True}
 
 
 # ------------------------------------------------------------------------------------------
@@ -1026,17 +1118,18 @@ def case_horoarcs(case):
 # projective drawings
 # ------------------------------------------------------------------------------------------
 def ptransformed(tf, X):
-    M = PTFS[tf]
+    M = PTF_ALL[tf] if isinstance(tf, str) else np.asarray(tf, dtype=float)
     X = np.asarray(X, dtype=float)
     return X if M is None else X @ np.asarray(M).T
 
 
 def case_projective(case):
     from geometry_tools import projective
-    chart, tf, kind = case["chart"], case["tf"], case["kind"]
-    v, t = [], 0
+    chart, kind = case["chart"], case["kind"]
+    v, t, lab = [], 0, case.get("tf")
     try:
-        d = new_proj_drawing(chart, tf)
+        d, tf, lab, v0 = drawing_of("projective", chart, case)
+        v += v0
         for item in case["items"]:
             X = np.array(item, dtype=float)
             before = all_artists()
@@ -1079,11 +1172,11 @@ def case_projective(case):
                                 if not ok:
                                     vv.append(V("projective/segment/endpoints", "chart %d: drawn %s, oracle %s" % (chart, fmt(vs), fmt(want))))
             for x in vv:
-                x["msg"] = "projective %s %s, chart %d, transform %s: %s" % (kind, fmt(X), chart, tf, x["msg"])
+                x["msg"] = "projective %s %s, chart %d, transform %s: %s" % (kind, fmt(X), chart, lab, x["msg"])
             v += vv
     finally:
         close_all()
-    return {"v": v[:6], "t": t, "o": "%s/%d/%s/%d" % (kind, chart, tf, t), "nt": True}
+    return {"v": v[:6], "t": t, "o": "%s/%d/%s/%d" % (kind, chart, lab, t), "nt": True}
 
 
 def const_sign(col):
